@@ -148,3 +148,29 @@ def tags_in(items):
         if ch:
             out.extend(tags_in(ch))
     return out
+
+
+def leaf_values(buf, out=None):
+    """tag -> list of decoded values of the fixed-size leaves (in encounter order)."""
+    if out is None:
+        out = {}
+    i = 0
+    n = len(buf)
+    while i + 8 <= n:
+        tag = buf[i] * 65536 + buf[i + 1] * 256 + buf[i + 2]
+        typ = buf[i + 3]
+        length = ((buf[i + 4] * 256 + buf[i + 5]) * 256 + buf[i + 6]) * 256 + buf[i + 7]
+        body = buf[i + 8:i + 8 + length]
+        if typ == T_STRUCT:
+            leaf_values(body, out)
+        elif typ in FIXED_LEN:
+            v = 0
+            for b in body:
+                v = v * 256 + b
+            if typ in (T_INT, T_LONG, T_DATE) and body[0] >= 128:
+                v -= 1 << (8 * length)
+            out.setdefault(tag, []).append(v)
+        else:
+            out.setdefault(tag, []).append(bytes(body))
+        i += 8 + length + pad_to_8(length)
+    return out
